@@ -6,6 +6,7 @@ package json
 import (
 	"encoding/json"
 	"fmt"
+	"unicode/utf8"
 
 	"github.com/hashicorp/hcl/v2"
 	"github.com/zclconf/go-cty/cty"
@@ -399,6 +400,17 @@ func parseNumber(p *peeker) (node, hcl.Diagnostics) {
 
 func parseString(p *peeker) (node, hcl.Diagnostics) {
 	tok := p.Read()
+	if !utf8.Valid(tok.Bytes) {
+		// encoding/json would silently replace the invalid bytes with U+FFFD
+		return nil, hcl.Diagnostics{
+			{
+				Severity: hcl.DiagError,
+				Summary:  "Invalid JSON string",
+				Detail:   "The given JSON string is not valid UTF-8.",
+				Subject:  &tok.Range,
+			},
+		}
+	}
 	var str string
 	err := json.Unmarshal(tok.Bytes, &str)
 
